@@ -7,7 +7,9 @@ CONSTANTS Ids, Fixed, Ncs, Segs, Versions, MaxOps, Emit, Broken, KindSet, EvalKs
 \* KindSet, EvalKs, DerivKs narrow the alphabet so that deeper histories stay enumerable (focused generators)
 \* Fixed: order parameter of the class (0 = dynamic); Ncs: coefficient counts tried; Segs: segment counts tried
 \* Broken twins: "noinvalidate" (update keeps the derivative cache), "keeptable" (update keeps the factor table),
-\* "assignkeep" (assignment takes over the source's caches only when they are built, else the destination keeps its own)
+\* "assignkeep" (assignment takes over the source's caches only when they are built, else the destination keeps its own),
+\* "sharecache" (copies share the cache storage; a same-shape update marks it dirty in place instead of detaching - with
+\* Broken = "sharecache" the invariant checked is the observable one, NeverStale, not the design rule NoSharedCache itself)
 
 VARIABLES hist, last
 mvars == <<pobjs, hist, last>>
@@ -34,11 +36,27 @@ DoUpdate(id, v, kind, nseg, nc) ==
     /\ id \in PLive
     /\ LET sh == Shape(kind, nseg, nc)
            good == Initialise(pobjs[id], pobjs[id].fixed, Dat(v, nseg, nc), sh.nbp, sh.rows, nc)
-       IN Put(id, IF Broken = "none" THEN good ELSE BreakIt(good, pobjs[id]))
+       IN IF Broken = "sharecache"
+          THEN LET old == pobjs[id]
+                   same == good.init /\ old.init /\ good.nseg = old.nseg /\ good.nc = old.nc
+               IN pobjs' = [i \in PLive |->
+                     IF i = id THEN [good EXCEPT !.shares = IF same THEN old.shares ELSE {}]
+                     ELSE IF i \in old.shares
+                          THEN (IF same THEN [pobjs[i] EXCEPT !.dcReady = FALSE]                 \* dirtied in place: the sharers see it
+                                ELSE [pobjs[i] EXCEPT !.shares = @ \ {id}])                     \* detached
+                          ELSE pobjs[i]]
+          ELSE Put(id, IF Broken = "none" THEN good ELSE BreakIt(good, pobjs[id]))
     /\ hist' = Append(hist, [op |-> "update", obj |-> id, v |-> v, kind |-> kind, nseg |-> nseg, nc |-> nc])
     /\ last' = <<"update", id, v, kind, nseg, nc>>
 DoEval(id, k) ==
-    /\ PEval(id, k)
+    /\ IF Broken = "sharecache" /\ id \in PLive
+       THEN LET o == pobjs[id]
+                o2 == AfterEval(o, k)
+                built == ~o.dcReady /\ o2.dcReady                                           \* this evaluation filled the (shared) storage
+            IN pobjs' = [i \in PLive |-> IF i = id THEN o2
+                                         ELSE IF built /\ i \in o.shares THEN [pobjs[i] EXCEPT !.dcReady = TRUE, !.dcVer = o2.dcVer, !.dcNc = o2.dcNc]
+                                         ELSE pobjs[i]]
+       ELSE PEval(id, k)
     /\ hist' = Append(hist, [op |-> "eval", obj |-> id, k |-> k])
     /\ last' = <<"eval", id, k>>
 DoDeriv(dst, src, k) ==
@@ -47,8 +65,17 @@ DoDeriv(dst, src, k) ==
     /\ PDerivative(dst, src, k, pobjs[src].data \o <<"d", k>>)
     /\ hist' = Append(hist, [op |-> "derivative", dst |-> dst, src |-> src, k |-> k])
     /\ last' = <<"derivative", dst, src, k>>
+ShareCopy(dst, src) ==
+    /\ src \in PLive
+    /\ LET grp == pobjs[src].shares \cup {src}
+           leave == IF dst \in PLive THEN pobjs[dst].shares ELSE {}
+       IN pobjs' = [i \in PLive \cup {dst} |->
+                     IF i = dst THEN [pobjs[src] EXCEPT !.shares = grp \ {dst}]
+                     ELSE IF i \in grp THEN [pobjs[i] EXCEPT !.shares = (@ \cup {dst}) \ {i}]
+                     ELSE IF i \in leave THEN [pobjs[i] EXCEPT !.shares = @ \ {dst}]
+                     ELSE pobjs[i]]
 DoCopy(dst, src) ==
-    /\ dst # src /\ PCopy(dst, src)
+    /\ dst # src /\ (IF Broken = "sharecache" THEN ShareCopy(dst, src) ELSE PCopy(dst, src))
     /\ hist' = Append(hist, [op |-> "copy", dst |-> dst, src |-> src])
     /\ last' = <<"copy", dst, src>>
 DoAssign(dst, src) ==
@@ -59,6 +86,7 @@ DoAssign(dst, src) ==
                 keepDc == IF so.dcReady THEN so ELSE [so EXCEPT !.dcReady = d.dcReady, !.dcVer = d.dcVer, !.dcNc = d.dcNc]
                 keepFt == IF so.ftReady THEN keepDc ELSE [keepDc EXCEPT !.ftReady = d.ftReady, !.ftNc = d.ftNc]
             IN Put(dst, keepFt)
+       ELSE IF Broken = "sharecache" THEN (dst \in PLive /\ ShareCopy(dst, src))
        ELSE PAssign(dst, src)
     /\ hist' = Append(hist, [op |-> "assign", dst |-> dst, src |-> src])
     /\ last' = <<"assign", dst, src>>
@@ -73,8 +101,8 @@ Spec == Init /\ [][Next]_mvars
 
 Bound == Len(hist) <= MaxOps
 AbsObj(o) == [init |-> o.init, data |-> o.data, nc |-> o.nc, nseg |-> o.nseg, dc |-> o.dcReady, dcCur |-> o.dcVer = o.data,
-              dcNc |-> o.dcNc, ft |-> o.ftReady, ftNc |-> o.ftNc, stale |-> o.stale]
+              dcNc |-> o.dcNc, ft |-> o.ftReady, ftNc |-> o.ftNc, stale |-> o.stale, shares |-> o.shares]
 View == <<[i \in PLive |-> AbsObj(pobjs[i])], last>>
 EmitScripts == Bound /\ (Emit /\ Len(hist) > 0 => PrintT(<<"SCRIPT", ToJson(hist)>>))
-Inv == PObjInv
+Inv == IF Broken = "sharecache" THEN CacheCoherent /\ NeverStale /\ RejectedIsEmpty ELSE PObjInv
 =============================================================================
